@@ -216,7 +216,7 @@ impl IoSched {
         let op = self.op;
         for i in 0..self.faults.len() {
             let f = &self.faults[i];
-            if (f.op != op && f.op != ANY_OP) || f.dir != dir || self.roles[role as usize] != f.role {
+            if (f.op != op && f.op != ANY_OP) || f.dir != dir || !role_matches(&self.roles[role as usize], &f.role) {
                 continue;
             }
             let (call, pos) = if f.op == ANY_OP { (call_tot, pos_tot) } else { (call_op, pos_op) };
@@ -325,7 +325,7 @@ impl IoSched {
         let op = self.op;
         for i in 0..self.faults.len() {
             let f = &self.faults[i];
-            if (f.op == op || f.op == ANY_OP) && f.dir == Dir::Open && f.role == self.roles[role as usize] {
+            if (f.op == op || f.op == ANY_OP) && f.dir == Dir::Open && role_matches(&self.roles[role as usize], &f.role) {
                 if let Act::FailOpen(e) = f.act {
                     if self.fired[i] == 0 {
                         self.fired_at.push(("open_fail", op, 0));
@@ -554,6 +554,12 @@ pub fn install_abort_handler() {
         libc::sigemptyset(&mut sa.sa_mask);
         libc::sigaction(libc::SIGABRT, &sa, std::ptr::null_mut());
     }
+}
+
+/// A fault planned for the file `out.mps.gz` also applies to `out.mps.gz.tmp`, `.out.mps.gz.partial` and the
+/// like: writing to a temporary file that is renamed into place is the code's business, the disk fails all the same.
+fn role_matches(file: &str, planned: &str) -> bool {
+    file == planned || (!planned.is_empty() && file.contains(planned))
 }
 
 pub struct CapAlloc;
